@@ -7,6 +7,7 @@ import (
 	"go/scanner"
 	"go/token"
 	"path/filepath"
+	"reflect"
 	"sort"
 	"strings"
 
@@ -146,6 +147,11 @@ func c18Graph(c *fw.Ctx, label, side string, aids []*ast.Ident, dids []*dst.Iden
 			if want := nodeOf(decl); want != nil && want != dn {
 				viol("decl-link", "decl-link:target:"+refl.TypeName(decl), fmt.Sprintf("object %q: Decl does not point at the counterpart of the declaring %T", ao.Name, decl))
 			}
+			// the declaring node has the shape of its counterpart (node kinds and operator / keyword
+			// tokens in traversal order): detached declarations, which are never printed, included
+			if sa, sd := c18DeclShapeAst(decl), c18DeclShapeDst(dn); sa != sd && !strings.HasPrefix(side, "decorator+") { // (import management merges selectors into identifiers)
+				viol("decl-link", "decl-link:shape:"+refl.TypeName(decl), fmt.Sprintf("object %q: its ast declaration has the shape %s, its dst declaration %s", ao.Name, sa, sd))
+			}
 			// the cycle closes: the identifiers inside the declaring node that carry this object
 			na, nd := 0, 0
 			for _, x := range identSeqAst(decl) {
@@ -219,6 +225,50 @@ func c18Typed(c *fw.Ctx, id string) {
 			}
 		}
 	})
+}
+
+func c18Tokens(v reflect.Value) string {
+	out := ""
+	v = reflect.Indirect(v)
+	if !v.IsValid() || v.Kind() != reflect.Struct {
+		return ""
+	}
+	for _, fn := range []string{"Op", "Tok"} {
+		if f := v.FieldByName(fn); f.IsValid() && f.Type() == reflect.TypeOf(token.ADD) {
+			out += ":" + token.Token(f.Int()).String()
+		}
+	}
+	return out
+}
+
+func c18DeclShapeAst(n ast.Node) string {
+	var sb strings.Builder
+	ast.Inspect(n, func(x ast.Node) bool {
+		switch x.(type) {
+		case nil:
+			return false
+		case *ast.CommentGroup, *ast.Comment:
+			return false
+		}
+		if refl.IsNil(x) {
+			return false
+		}
+		sb.WriteString(refl.TypeName(x) + c18Tokens(reflect.ValueOf(x)) + " ")
+		return true
+	})
+	return sb.String()
+}
+
+func c18DeclShapeDst(n dst.Node) string {
+	var sb strings.Builder
+	dst.Inspect(n, func(x dst.Node) bool {
+		if refl.IsNil(x) {
+			return false
+		}
+		sb.WriteString(refl.TypeName(x) + c18Tokens(reflect.ValueOf(x)) + " ")
+		return true
+	})
+	return sb.String()
 }
 
 func scopeNames(s *ast.Scope) string {
